@@ -5,7 +5,7 @@ package genbank
 // C01: GenBank parsing returns exactly what a well-formed record states.
 //
 // verif:bound C01 records laid out by the harness's independent writer (standard flat-file columns): locus names of 2, 3 or 5 symbolic characters (lower-case letters other than g m o r t u v, last character also a digit), sequence lengths 4, 12, 61 (one, two digits; crossing an ORIGIN line) with every letter symbolic (a-z), molecule types DNA/mRNA/tRNA/rRNA, linear/circular, DEFINITION on one or two lines and ORGANISM with a taxonomy line (one symbolic word each), 0..1 (quick) / 0..2 (thorough) references with PUBMED and REMARK, optional COMMENT block
-// verif:bound C01 feature tables: none; one feature with one qualifier; a feature without qualifiers followed by another; location text on two and on three lines; a qualifier value wrapped onto a continuation line; a value filling its line so that only the closing quote wraps; two features with two qualifiers. Qualifier values 2 (quick) / 3 (thorough) symbolic bytes over printable ASCII without the double quote (so '/', '=' and inner spaces are included; leading/trailing spaces excluded)
+// verif:bound C01 feature tables: none; one feature with one qualifier; a feature without qualifiers followed by another; location text on two and on three lines; a qualifier value wrapped onto a continuation line; a value filling its line so that only the closing quote wraps; two features with two qualifiers; a 15-character feature key with a wrapped /translation followed by a wrapped /note. Qualifier values 2 (quick) / 3 (thorough) symbolic bytes over printable ASCII without the double quote (so '/', '=' and inner spaces are included; leading/trailing spaces excluded)
 // verif:bound C01 multi-record clause: ParseMulti on two records with and without final newline, ParseFlat behind a 10-line header; each result compared with parsing that record alone
 // verif:bound C01 outside the claim: sequences of 10^5 letters, 40 features, 5 records, values long enough to wrap more than once, Read* wrappers and gzip
 
@@ -50,10 +50,16 @@ func c01Check(r gRec, s poly.Sequence, tag string) {
 		vAssert(vEqStr(b.Type, a.key), tag+"feature-key-in-file-order")
 		vAssert(vEqStr(b.GbkLocationString, a.locText()), tag+"feature-location-text")
 		vAssert(len(b.Attributes) == len(a.quals), tag+"qualifier-set-as-written")
-		for _, q := range a.quals {
+		for qi, q := range a.quals {
 			v, ok := b.Attributes[q.k]
 			vAssert(ok, tag+"qualifier-set-as-written")
-			vAssert(vEqStr(v, q.v), tag+"qualifier-values-verbatim")
+			want := q.v
+			if q.k == "translation" && qi < len(a.wrapAt) && a.wrapAt[qi] > 0 && a.wrapAt[qi] < len(q.v) {
+				// amino-acid text is wrapped anywhere and re-joined without a blank: the writer
+				// replaced one character of the value by the line break, the reader drops it
+				want = q.v[:a.wrapAt[qi]] + q.v[a.wrapAt[qi]+1:]
+			}
+			vAssert(vEqStr(v, want), tag+"qualifier-values-verbatim")
 		}
 	}
 }
